@@ -3,6 +3,7 @@ package main
 import (
 	"go/ast"
 	"sort"
+	"strings"
 )
 
 // poolWorkerFields lists (sorted, unique) every field of the receiver that the ingest worker
@@ -24,10 +25,94 @@ func poolWorkerFields() []string {
 		}
 		return true
 	})
+	// report the TYPE of each field (from the receiver's struct declaration), so that renaming a
+	// field is not a change while a new kind of shared state is
+	types := map[string]string{}
+	if td, ok := fn.pkg.types[fn.recv]; ok && td != nil {
+		if st, ok := td.spec.Type.(*ast.StructType); ok {
+			for _, fld := range st.Fields.List {
+				for _, nm := range fld.Names {
+					types[nm.Name] = typeString(fld.Type)
+				}
+			}
+		}
+	}
 	out := []string{}
 	for k := range seen {
-		out = append(out, k)
+		if t, ok := types[k]; ok {
+			out = append(out, t)
+		} else {
+			out = append(out, "?"+k)
+		}
 	}
 	sort.Strings(out)
 	return out
+}
+
+// poolAccesses is lockset(Inserter.insertBlock) with the two shared accumulators named by ROLE
+// rather than by their current identifiers: the (only) written field of type uint32 is the row
+// counter ("rowsCount"), the (only) written field of type []asyncBlock is the list of finished
+// blocks ("asyncBlocks").  Renaming either field is then not a change; any other written field
+// keeps its own name, which the model's parse_access does not know, so the tie breaks.
+func poolAccesses() []string {
+	fn := findFunc("pkg/ingest", "Inserter.insertBlock")
+	accs := lockset(fn)
+	if fn == nil {
+		return accs
+	}
+	types := map[string]string{}
+	if td, ok := fn.pkg.types[fn.recv]; ok && td != nil {
+		if st, ok := td.spec.Type.(*ast.StructType); ok {
+			for _, fld := range st.Fields.List {
+				for _, nm := range fld.Names {
+					types[nm.Name] = typeString(fld.Type)
+				}
+			}
+		}
+	}
+	roleOf := map[string]string{"uint32": "rowsCount", "[]asyncBlock": "asyncBlocks"}
+	// fields mentioned in the access list, per type
+	byType := map[string]map[string]bool{}
+	for _, a := range accs {
+		f := strings.SplitN(a, ":", 2)[0]
+		t := types[f]
+		if byType[t] == nil {
+			byType[t] = map[string]bool{}
+		}
+		byType[t][f] = true
+	}
+	out := make([]string, 0, len(accs))
+	for _, a := range accs {
+		parts := strings.SplitN(a, ":", 2)
+		if role, ok := roleOf[types[parts[0]]]; ok && len(byType[types[parts[0]]]) == 1 && len(parts) == 2 {
+			out = append(out, role+":"+parts[1])
+		} else {
+			out = append(out, a)
+		}
+	}
+	return out
+}
+
+func typeString(e ast.Expr) string {
+	switch x := e.(type) {
+	case *ast.Ident:
+		return x.Name
+	case *ast.SelectorExpr:
+		return typeString(x.X) + "." + x.Sel.Name
+	case *ast.StarExpr:
+		return "*" + typeString(x.X)
+	case *ast.ArrayType:
+		return "[]" + typeString(x.Elt)
+	case *ast.ChanType:
+		switch x.Dir {
+		case ast.RECV:
+			return "<-chan " + typeString(x.Value)
+		case ast.SEND:
+			return "chan<- " + typeString(x.Value)
+		}
+		return "chan " + typeString(x.Value)
+	case *ast.MapType:
+		return "map[" + typeString(x.Key) + "]" + typeString(x.Value)
+	}
+	return "?"
 }
